@@ -20,7 +20,7 @@ RULE = ('corpus; approval profiles over 2..6 candidates (1..7 distinct ballots, 
 PARTIAL = ['allocated score: the clause is proved for every round without a tie and positive ballot weights; rounds with level leaders follow the code (all elected in set-iteration order, or one tie entry for several seats: C12_alloc_tie_*_refuted) and the ValueError of the subtraction loop is characterised exactly (crash_cond, C12_alloc_crash_refuted)',
            'STAR: proved for the default configuration (run-off of n + 1, unscored below every scored candidate): table = supports, exact short class, complete one-seat table, Schulze over the table for n seats (C12_star_*); a configured unscored_value / other run-off sizes are judged by the Python reference only',
            'MJ for n seats: the theorems (C12_mj_seats_*) are about answers; StatisticsError / VotingSystemError (reference order undefined at the cut) and the sufficiency of the fuel are compared, not proved',
-           'score voting: truncation / min_count keep the dictionaries well formed (C12_corrected_scores_ok) and the aggregate is ranked exactly; that exactly the c lowest and c highest scores are dropped is compared, not proved']
+           'score voting: a non-integer truncation >= 1 is floored by the model (outside the quantified settings)']
 TRUSTED = []
 _shared = {}
 
@@ -215,10 +215,14 @@ def jr_ok(votes, n, winners):
     return True
 
 
-def score_ref(cf, votes):
-    """independent re-implementation of the documented aggregation (no truncation)"""
+def corrected_lists(cf, votes):
+    """independent re-implementation of the documented corrections: per candidate the sorted list of its scores after
+    min_count (fewer scores -> min_count copies of bottom_value), unscored_value (one copy per voter who did not score it)
+    and truncation (the c lowest and the c highest scores dropped; c = truncation when >= 1, else int(voters * truncation))
+    - C12_score_corrections / C12_score_truncation.  A candidate left without scores has an empty list"""
     cands = sorted({cc for b, _ in votes for cc, _ in b})
     nv = sum(w for _, w in votes)
+    tr = q(cf['trunc'])
     out = {}
     for cc in cands:
         lst = []
@@ -227,13 +231,26 @@ def score_ref(cf, votes):
                 if c2 == cc:
                     lst += [q(s)] * w
         if len(lst) < cf['min_count']:
-            lst = [q(cf['bottom'])] * cf['min_count']
-        elif cf['unscored'] != 'none':
+            out[cc] = [q(cf['bottom'])] * cf['min_count']
+            continue
+        n_scores = len(lst)
+        if cf['unscored'] != 'none':
             u = min(lst) if cf['unscored'] == 'min' else q(cf['unscored'])
             lst += [u] * (nv - len(lst))
+        lst.sort()
+        if tr > 0:
+            cut = int(tr) if tr >= 1 else int((nv if nv else n_scores) * tr)
+            lst = lst[cut:len(lst) - cut] if len(lst) > 2 * cut else []
+        out[cc] = lst
+    return out
+
+
+def score_ref(cf, votes):
+    """the configured exact aggregate of every candidate (None when some candidate is left without scores)"""
+    out = {}
+    for cc, lst in corrected_lists(cf, votes).items():
         if not lst:
             return None
-        lst.sort()
         if cf['fn'] == 'sum':
             out[cc] = sum(lst)
         elif cf['fn'] == 'mean':
@@ -244,25 +261,9 @@ def score_ref(cf, votes):
 
 
 def mj_lists(cf, votes):
-    """per candidate the sorted list of corrected scores (no truncation), as score_ref builds them"""
-    cands = sorted({cc for b, _ in votes for cc, _ in b})
-    nv = sum(w for _, w in votes)
-    out = {}
-    for cc in cands:
-        lst = []
-        for b, w in votes:
-            for c2, s in b:
-                if c2 == cc:
-                    lst += [q(s)] * w
-        if len(lst) < cf['min_count']:
-            lst = [q(cf['bottom'])] * cf['min_count']
-        elif cf['unscored'] != 'none':
-            u = min(lst) if cf['unscored'] == 'min' else q(cf['unscored'])
-            lst += [u] * (nv - len(lst))
-        if not lst:
-            return None
-        out[cc] = sorted(lst)
-    return out
+    """per candidate the sorted list of corrected scores (None when some candidate is left without scores)"""
+    out = corrected_lists(cf, votes)
+    return None if any(not l for l in out.values()) else out
 
 
 def mj_ref(lists):
@@ -523,7 +524,7 @@ def spec(c, io, mo):
         if not jr_ok(c['votes'], c['n'], got):
             c['_class'] = 'pav-jr'
             return 'PAV committee %s violates justified representation' % got
-    if u == 'score' and v[0] == 0 and q(c['cfg']['trunc']) == 0:
+    if u == 'score' and v[0] == 0:
         ref = score_ref(c['cfg'], c['votes'])
         if ref is not None:
             res = v[1]
@@ -537,7 +538,7 @@ def spec(c, io, mo):
             if plain and outside and max(ref[x] for x in outside) > min(ref[x] for x in plain):
                 c['_class'] = 'score-order'
                 return 'a better aggregate is left out'
-    if u == 'mj' and v[0] == 0 and c['n'] == 1 and q(c['cfg']['trunc']) == 0 and len(v[1]) == 1 and not isinstance(v[1][0], list):
+    if u == 'mj' and v[0] == 0 and c['n'] == 1 and len(v[1]) == 1 and not isinstance(v[1][0], list):
         lists = mj_lists(c['cfg'], c['votes'])
         if lists is not None:
             med = {cc: l[(len(l) - 1) // 2] for cc, l in lists.items()}
@@ -556,7 +557,7 @@ def spec(c, io, mo):
                     c['_class'] = 'mj-default-reentry'
                     return ('majority judgment (default tie-break) elects %d, successive median removal among the level candidates elects %d: '
                             'a candidate that fell behind stayed in the removal loop' % (v[1][0], want))
-    if u == 'mj' and not c.get('plus') and c['n'] == 1 and q(c['cfg']['trunc']) == 0 and (
+    if u == 'mj' and not c.get('plus') and c['n'] == 1 and (
             v[0] != 0 or (len(v[1]) == 1 and isinstance(v[1][0], list))):
         # no plain winner (an error or a tie) although successive median removal among the level candidates has one
         lists = mj_lists(c['cfg'], c['votes'])
@@ -565,7 +566,7 @@ def spec(c, io, mo):
             c['_class'] = 'mj-default-reentry'
             return ('majority judgment (default tie-break) answers %s, successive median removal among the level candidates elects %d'
                     % (c.get('_exc') or v[1], want))
-    if u == 'mj' and q(c['cfg']['trunc']) == 0 and (v[0] == 0 or v[1] in (common.E['VSE'], common.E['STATS'])):
+    if u == 'mj' and (v[0] == 0 or v[1] in (common.E['VSE'], common.E['STATS'])):
         bad = mj_seats_spec(c, v)
         if bad is not None:
             c['_class'] = 'mj-seats'
@@ -858,6 +859,28 @@ def gen_star_seats(rng, count):
         yield c
 
 
+def gen_score_trunc(rng, count):
+    """boundary stream for the corrections: enough voters (ballot counts up to 9) that fractional cut-offs are effective,
+    truncation in {1/10, 1/5, 1/4, 1/3, 1, 2, 3}, min_count around the number of scores a candidate holds, every
+    unscored_value; through ScoreVoting (mean / sum / median_low) and MajorityJudgment"""
+    for _ in range(count):
+        m = rng.randint(2, 4)
+        rows = {}
+        for _ in range(rng.randint(2, 6)):
+            cs = sorted(rng.sample(range(1, m + 1), rng.randint(1, m)))
+            b = tuple((cc, rng.randint(0, 5)) for cc in cs)
+            rows[b] = rng.randint(1, 9)
+        votes = [[[list(x) for x in b], w] for b, w in rows.items()]
+        mm = len({cc for b, _ in votes for cc, _ in b})
+        cfg = dict(fn=rng.choice(['mean', 'sum', 'median_low']), unscored=rng.choice(['none', 'none', '0', 'min']),
+                   min_count=rng.choice([0, 0, 2, 5, 10]), trunc=rng.choice(['1/10', '1/5', '1/4', '1/3', '1', '2', '3']), bottom='0')
+        u = rng.choice(['score', 'score', 'mj'])
+        c = dict(unit=u, votes=votes, n=rng.randint(1, mm), cfg=cfg)
+        if u == 'mj':
+            c['plus'] = rng.random() < 0.4
+        yield c
+
+
 def corpus():
     import os, json, glob
     for p in sorted(glob.glob(os.path.join(common.VERIF, 'corpus', ID, '*.json'))):
@@ -871,6 +894,7 @@ def explore(ctx, widen=1):
     ctx.differential('single-seat-level', gen_focus(ctx.rng, ctx.n(1500, 15000) * widen), model_line, impl, **kw)
     ctx.differential('mj-seats-level', gen_mj_seats(ctx.rng, ctx.n(3000, 30000) * widen), model_line, impl, **kw)
     ctx.differential('star-seats', gen_star_seats(ctx.rng, ctx.n(2500, 25000) * widen), model_line, impl, **kw)
+    ctx.differential('score-trunc', gen_score_trunc(ctx.rng, ctx.n(1500, 15000) * widen), model_line, impl, **kw)
     ctx.differential('alloc-exact-quota', gen_alloc_exact(ctx.rng, ctx.n(3000, 20000) * widen), model_line, impl, **kw)
     ctx.differential('alloc-model', gen_alloc_model(ctx.rng, ctx.n(4000, 40000) * widen), model_line, impl, **kw)
 
